@@ -198,6 +198,10 @@ def flag_table(col: Collector, con: str, rel: str, root: Node, cmds: List[Cmd]):
         if False:
             pass
         for p in pats:
+            # `\?)` and `'?')` match the literal character getopts reports for an unknown flag; a bare `?)` matches any one character, which
+            # after the listed arms is the same set of cases
+            p = p.strip("'\"")
+            p = p[1:] if p.startswith("\\") and len(p) == 2 else p
             table[p] = acts
     want = {"d": ["input_method=cmd", "input_file=$OPTARG"], "c": ["run=0"], "r": ["compile=0"], "o": ["output_dir=$OPTARG"], "?": ["exit 10"]}
     for k, v in want.items():
@@ -219,7 +223,7 @@ def flag_table(col: Collector, con: str, rel: str, root: Node, cmds: List[Cmd]):
     # shift + stray argument check
     top = [c for c in cmds if not c.ctx.startswith("subst") and c.node.line > w.line
            and not any(g[0].startswith("getopts") for g in c.guards)]
-    sh_ok = bool(top) and top[0].node.name == "shift" and top[0].node.args == ["$((OPTIND-1))"] and not top[0].guards
+    sh_ok = bool(top) and top[0].node.name == "shift" and ["".join(a.split()) for a in top[0].node.args] in (["$((OPTIND-1))"], ["$(($OPTIND-1))"]) and not top[0].guards
     col.add("C16.R3", con, "shift-after-options", sh_ok, "`shift $((OPTIND-1))` must follow the option loop", f"{rel}:{top[0].node.line if top else 0}")
     any_left = ("$#!=0", "$#-ne0", "$#-gt0")          # (canon_test: [ ] / [[ ]] / test, quoting and blanks do not matter)
     stray = [c for c in top if c.node.name == "exit" and c.node.args == ["1"] and any(canon_test(gt) in any_left and tr for gt, tr in c.guards)]
@@ -389,6 +393,10 @@ def check_delivery(col: Collector, key: str, con: str, rel: str, cmds: List[Cmd]
         d_dir = [(v, c) for v, c in dests if has_guard(c, "[ -d $output_dir ]", True)]
         d_file = [(v, c) for v, c in dests if has_guard(c, "[ -d $output_dir ]", False)]
         ok = [v for v, _ in d_dir] == ["$output_dir/ANALYSIS.root"] and [v for v, _ in d_file] == ["$output_dir"]
+        if not ok and not d_file and [v for v, _ in d_dir] == ["$output_dir/ANALYSIS.root"]:
+            # default-then-override: the plain path is assigned first, whatever $output_dir is, and replaced under `-d`
+            plain = [(v, c) for v, c in dests if not any("-d $output_dir" in canon_test(g[0]) or "-d$output_dir" in canon_test(g[0]) for g in c.guards)]
+            ok = [v for v, _ in plain] == ["$output_dir"] and plain[0][1].order < d_dir[0][1].order
         col.add("C16.R6", con, "directory-vs-file-destination", ok,
                 "an existing directory gets ANALYSIS.root inside it, anything else (a file path, existing or not) is the destination itself; "
                 "the distinguishing test must be `[ -d $output_dir ]`", rel)
